@@ -20,7 +20,7 @@ from pathlib import Path
 
 from lv import harness, tlc
 
-DEFAULTS = dict(norm=['none', 'None', []], frozen=False, hashable=False, eq_twin=False, neq_other_types=False, key='',
+DEFAULTS = dict(main_module_type=False, norm=['none', 'None', []], frozen=False, hashable=False, eq_twin=False, neq_other_types=False, key='',
                 variants=[], recon_eq=False, pickle_ok=False, pickle_after_run_clean=False, storage_accepts=False,
                 deps=[], ser=['jnone', 'None', []], ran=False, listed_own=0, listed_elsewhere=0, listed_key_ok=False,
                 listed_meta_ok=False, listed_loads_stored=False, exc='')
@@ -94,6 +94,8 @@ def run(prop: str, tier: str) -> int:
                                                    'listed_key_ok', 'listed_meta_ok', 'listed_loads_stored', 'recon_eq', 'pickle_detail',
                                                    'listing_foreign', 'listing_error', 'foreign_sample') if k in o}
                     fid = f'{mine[0]}:{json.dumps([o.get("ty"), o.get("raw")], separators=(",", ":"))[:160]}'
+                    if o.get('main_module_type'):
+                        fid = f'{mine[0]}:copy of a task whose type is defined in the main module, sent to a spawned interpreter ({o["id"]})'
                     brief = {k: what[k] for k in ('listed_own', 'listed_elsewhere', 'listed_key_ok', 'listed_meta_ok', 'listed_loads_stored',
                                                   'recon_eq', 'pickle_detail', 'listing_foreign', 'listing_error', 'exc') if k in what}
                     rep.violation(fid, f'{mine}: {json.dumps(brief)[:260]}',
